@@ -175,18 +175,34 @@ NAMES = ["MyQT,1", "QT,QT,x", "aST,b", "QT,", "x,QT,y,QT,", "Ada", "AxiDraw 7", 
 
 def nickname(ctx, rng):
     steps = [{"m": "query_nickname", "a": []}] if rng.random() < 0.5 else []
+    initial = rng.choice(["", "Old name", "  lead", " both ", "trail   ", "AxiDraw", "axidraw 7"])
+    prev = initial
+    near = False
     for _ in range(rng.randint(1, 4)):
         nm = rng.choice(NAMES)[:16]
         if rng.random() < 0.3:
             nm = "".join(rng.choice("abcXYZ 019-_") for _ in range(rng.randint(3, 16)))
+        if prev.strip() and rng.random() < 0.45:
+            # a name that differs from the one the board holds by very little: only letter case, only
+            # padding, one character more or less, or not at all - it is still a write, and what the
+            # board holds afterwards is THIS text (trimmed)
+            base = prev.strip()
+            k = rng.randrange(7)
+            nm = (base.swapcase(), base.lower(), base.upper(), " " + base, base + " ", base[:-1] or "x",
+                  base)[k][:16]
+            if k <= 2 and nm == base:
+                nm = (base + "a")[:16].swapcase()
+            near = True
         steps.append({"m": "write_nickname", "a": [nm]})
+        prev = nm
         if rng.random() < 0.8:
             steps.append({"m": "query_nickname", "a": []})
     steps.append({"m": "query_nickname", "a": []})
-    scen = {"board": {"version": "3.0.2", "nickname": rng.choice(["", "Old name", "  lead", " both ", "trail   "])},
+    scen = {"board": {"version": "3.0.2", "nickname": initial},
             "setup": rng.choice(["attach", "connect"]), "steps": steps}
     ctx.sample(scen, tag="nickname", per_tag=1)
-    run_case(ctx, ["nickname round trip"], scen)
+    run_case(ctx, ["nickname round trip"] + (["nickname: rewritten with a near-identical name (case / padding / "
+                                              "one character)"] if near else []), scen)
 
 
 def motors_exhaustive(ctx):
@@ -268,18 +284,29 @@ def run(ctx):
     for _ in range(ctx.budget(1500, 20000)):
         if not ctx.alive():
             break
+        if rng.random() < 0.03:
+            from .. import noise
+            noise.burst(ctx, rng, exclude=('versions', 'discovery'))
         overlapping(ctx, rng)
     for _ in range(ctx.budget(800, 10000)):
+        if rng.random() < 0.03:
+            from .. import noise
+            noise.burst(ctx, rng, exclude=('versions', 'discovery'))
         nickname(ctx, rng)
     for _ in range(ctx.budget(1500, 20000)):
+        if rng.random() < 0.03:
+            from .. import noise
+            noise.burst(ctx, rng, exclude=('versions', 'discovery'))
         motors_random(ctx, rng)
     for _ in range(ctx.budget(1500, 20000)):
         motors_shapes(ctx, rng)
     ctx.need("motors: resolutions given as bool / float / IntEnum / str / int subclass", 1500)
     ctx.need("int32 round trip", 2000)
+    ctx.need("history: after calls to other library functions", 60)
     ctx.need("int32:negative", 500)
     ctx.need("overlapping writes history", 5000)
     ctx.need("nickname round trip", 1000)
+    ctx.need("nickname: rewritten with a near-identical name (case / padding / one character)", 300)
     ctx.need("motors random sequence", 3000)
     ctx.need("monitor:board state compared with the model", 20000)
     for s in range(29):
